@@ -35,6 +35,11 @@ claimed = {
   "note": NOTE_COMMON + "Models of frontend/mod.rs, ast/runtype.rs, print/printer.rs for the fragment; swc parser and the harness' TypeScript printer trusted; constructs outside the fragment are covered by C05/C07/C09 only.",
   "technique": "Lean 4 proof (base cases of the compile chain, printer lemma by induction on the literal list, decide +kernel witnesses) + three-way correspondence compiler/model/reference",
   "design": "§5 C01", "engines": ["lean-model", "beffh", "js-host"]},
+ "C08": {
+  "text": "Lean 4: the reference semantics is invariant under the listed rewrites — union / intersection member permutation and object-member permutation (via a general foldl-permutation lemma), parentheses, readonly, introducing/inlining a non-generic alias, the generic identity wrapper; at the runtime level the branch order of a union never changes acceptance (anyOf_order_irrelevant, all fuels). The end-to-end statement uses the C01 tie. The check rewrites generated programs (1–4 random rewrites from 12 kinds), compiles BOTH with the real compiler and compares the two real validators on the same values and their hash256 digests; the Lean compiler model predicts both bit vectors. hash256 equality is required without exception for name-free rewrites; for naming rewrites differences are classified by three recorded hypotheses (D11, D39, D41). Genuine defects repaired on the way: D10 (alias hops in cycle numbering), D42 (Pick with aliased keys), D1 (Record over an alias of an alias hangs).",
+  "note": NOTE_COMMON + "Same models as C01; the rewrite engine of the harness (mode_prog.mjs) is trusted to apply the named rewrite.",
+  "technique": "Lean 4 proof (permutation invariance of the reference folds, unfolding lemmas) + pairwise differential compilation with model prediction",
+  "design": "§5 C08", "engines": ["lean-model", "beffh", "js-host"]},
 }
 pending_reason = "not yet built in this round (planned: DESIGN.md §5/§8); no claim is made until its model, theorems and correspondence check exist"
 m = {"version": 1, "setup_cmd": "bin/setup",
